@@ -50,6 +50,7 @@ fn engine_by_name(n: &str) -> Option<Box<dyn Engine>> {
         "bcast" => Some(Box::new(engines::bcast::Bcast)),
         "inj" => Some(Box::new(engines::inj::Inj)),
         "tset" => Some(Box::new(engines::tset::TSet)),
+        "slot" => Some(Box::new(engines::slot::SlotEngine)),
         "synccell" => Some(Box::new(engines::synccell::SyncCellEngine)),
         _ => None,
     }
